@@ -586,6 +586,38 @@ impl Chunk {
     }
 }
 
+#[cfg(feature = "verif-hooks")]
+impl Chunk {
+    /// Verification hook: build a [`Chunk`] directly from its fields (without
+    /// going through the CRC-32C protected wire format). Returns `None` unless
+    /// the struct invariants hold (known device ID and chip ID, flags 0 or 1).
+    #[doc(hidden)]
+    pub fn verif_from_parts(
+        device_id: u32,
+        packet_sequence: u32,
+        channel_sequence: u16,
+        channel_id: u8,
+        flags: u8,
+        chunk_id: u16,
+        payload: Vec<u8>,
+    ) -> Option<Self> {
+        BoardId::try_from(device_id).ok()?;
+        AfterId::try_from(channel_id).ok()?;
+        if flags > 1 {
+            return None;
+        }
+        Some(Self {
+            device_id,
+            packet_sequence,
+            channel_sequence,
+            channel_id,
+            flags,
+            chunk_id,
+            payload,
+        })
+    }
+}
+
 impl TryFrom<&[u8]> for Chunk {
     type Error = TryChunkFromSliceError;
 
